@@ -553,11 +553,63 @@ func checkSleep(s Sleep, c *vcommon.Ctx) *vcommon.Failure {
 	return nil
 }
 
+// ---------- an empty dotimes is bounded and interruptible ----------
+
+type EmptyLoop struct {
+	N      int  `json:"n"`
+	Budget int  `json:"budget"`
+	Huge   bool `json:"huge"`
+}
+
+func checkEmptyLoop(e EmptyLoop, c *vcommon.Ctx) *vcommon.Failure {
+	if e.N < 1 || e.Budget < 1 {
+		return nil
+	}
+	n := e.N
+	if e.Huge {
+		n = 2000000000
+		c.Class("huge")
+	}
+	src := fmt.Sprintf("(dotimes (i %d))", n)
+	c.NonTrivial(fmt.Sprintf("%d/%d", n, e.Budget))
+	rt := vcommon.NewRuntime(vcommon.Cfg{MaxSteps: int64(e.Budget), NoStdlib: true})
+	done := make(chan vcommon.Outcome, 1)
+	go func() { done <- rt.Load(src) }()
+	var out vcommon.Outcome
+	select {
+	case out = <-done:
+	case <-time.After(20 * time.Second):
+		return vcommon.Failf("budget/no-termination", "%s under a budget of %d steps did not stop within 20s: the loop's turns are not counted as steps", src, e.Budget)
+	}
+	if e.Budget < n {
+		if !out.IsErr || out.Cond != "step-limit-exceeded" {
+			return vcommon.Failf("budget/empty-loop-not-counted", "%s finished with %s under a budget of only %d steps: turns of an empty loop must each cost a step", src, outcome(out), e.Budget)
+		}
+	}
+	// cancellation inside the loop
+	ctx := &countCtx{after: int64(e.Budget)}
+	rt2 := vcommon.NewRuntime(vcommon.Cfg{NoStdlib: true})
+	done2 := make(chan vcommon.Outcome, 1)
+	go func() { done2 <- rt2.Observe(rt2.Env.LoadStringContext(ctx, "t.lisp", src)) }()
+	select {
+	case out = <-done2:
+	case <-time.After(20 * time.Second):
+		return vcommon.Failf("cancel/not-stopped", "%s was not interrupted within 20s of its context reporting cancellation at poll %d", src, e.Budget)
+	}
+	if e.Budget < n && !(out.IsErr && out.Cond == "context-cancelled") {
+		return vcommon.Failf("cancel/not-stopped", "%s with a context cancelled at poll %d ended with %s", src, e.Budget, outcome(out))
+	}
+	return nil
+}
+
 func TestCheck(t *testing.T) {
 	vcommon.Main(t, "C04",
 		vcommon.S("budget", 2400, 50000, genBudget(), checkBudget),
 		vcommon.S("cancel", 1600, 30000, genCancel(), checkCancel),
 		vcommon.S("bounds", 24000, 500000, genDepth(), checkDepth),
+		vcommon.S("empty-dotimes", 800, 20000, rapid.Custom(func(t *rapid.T) EmptyLoop {
+			return EmptyLoop{N: rapid.IntRange(2, 300).Draw(t, "n"), Budget: rapid.IntRange(1, 320).Draw(t, "budget"), Huge: rapid.IntRange(0, 19).Draw(t, "huge") == 0}
+		}), checkEmptyLoop),
 		vcommon.S("sleep-cancel", 32, 200, rapid.Custom(func(t *rapid.T) Sleep { return Sleep{rapid.IntRange(5, 120).Draw(t, "ms")} }), checkSleep),
 	)
 }
